@@ -59,6 +59,21 @@ def plan(tier, seed):
                   level=pick(rng, [None, None, 1, 2, 3]),
                   dt=pick(rng, ["complex128", "float64", "complex128", "float64", "complex64",
                                 "float32", "int64"]), via=pick(rng, ["linop", "linop", "func"]))
+    # realistic sizes (a stack of 256 x 256 slices or coils is the ordinary use of
+    # Wavelet(axes=(-2, -1))): well past a million samples, odd leading lengths, the
+    # transformed axes given explicitly or not
+    big = [([21, 256, 256], [-2, -1]), ([9, 384, 384], [1, 2]), ([2051, 640], [-1]),
+           ([5, 300, 301], [-2, -1]), ([1048579], None), ([33, 200, 180], None),
+           ([1025, 1027], [0]), ([3, 7, 160, 161], [-1, -2]), ([257, 64, 65], [1, 2]),
+           ([1100, 1000], None)]
+    rngb = P.rng("wav-big")
+    for i in range(3 if quick else 20):
+        shape, axes = big[int(rngb.integers(len(big)))] if not quick or i else big[
+            int(rngb.integers(4))]
+        P.add("wav", name=pick(rngb, ["haar", "db2", "db4", "sym4", "coif1"]), shape=shape,
+              axes=axes, level=pick(rngb, [None, 1, 2, 3]),
+              dt=pick(rngb, ["complex64", "float64", "float32"]),
+              via=pick(rngb, ["linop", "func"]), big=True)
     # histories: several operators for the same (shape, wavelet, level) but different axes in
     # one process, in random order - anything the library remembers between calls (shape or
     # slice layouts) must be keyed by all of the parameters
@@ -202,4 +217,26 @@ def run_one(case):
         if not e_ <= tol:
             return violated(sig, "%s differs from the transform reached directly: rel %.3g" % (
                 nm_, e_), wit, mech="indirect", obs=obs)
+    # normal operators of the pair: W.N = W^H W (the identity), and for the inverse
+    # Wi.N = Wi^H Wi = W W^H - a projector onto the range of W, not the identity
+    try:
+        n1, n2, n3 = W.N(x), Wi.N(y), W.H.N(y)
+    except Exception as e:
+        inn = e
+        while inn.__cause__ is not None:
+            inn = inn.__cause__
+        return violated(sig, "normal operator of the wavelet pair raised %s: %s" % (
+            type(inn).__name__, str(inn)[:200]), wit, mech="raised:" + type(inn).__name__)
+    pref = W(WHy)
+    for nm_, got_, ref_ in (("Wavelet.N", n1, back), ("InverseWavelet.N", n2, pref),
+                            ("Wavelet.H.N", n3, pref)):
+        checks += 1
+        if tuple(got_.shape) != tuple(ref_.shape):
+            return violated(sig, "%s returns shape %s, adjoint(forward) gives %s" % (
+                nm_, got_.shape, ref_.shape), wit, mech="normal-shape")
+        e_ = nrm(got_ - ref_) / max(nrm(ref_), nrm(y) if nm_ != "Wavelet.N" else nx, 1e-300)
+        obs["normal"] = max(obs.get("normal", 0.0), e_)
+        if not e_ <= tol:
+            return violated(sig, "%s differs from applying the operator and then its adjoint: "
+                            "rel %.3g" % (nm_, e_), wit, mech="normal", obs=obs)
     return held(sig, obs, checks, any(shape[a] >= 2 for a in tr))
